@@ -22,11 +22,16 @@ def big_tree(rng):
 def prefix_siblings(rng):
     """a folder with its own history beside entries whose names merely begin with that folder's name (A002 / A002_proxy /
     A002.txt): which history a path belongs to is decided on whole path components, never on a string prefix"""
-    base = rng.choice(["A002", "Clips", "r", "d.1", "Reel 7"])
+    base = rng.choice(["A002", "Clips", "r", "d.1", "Reel 7", "clips"])
     inner = {"c%d.mov" % k: {"f": "%02x%02x" % (k, rng.randrange(256))} for k in range(rng.choice([1, 2, 4]))}
     if rng.random() < 0.5:
         inner["sub"] = {"d": {"deep.bin": {"f": "0a0b"}, base: {"f": "77"}}}
+    # names that differ in case only are different names (file beside file, folder beside folder with a history)
+    inner["Take.mov"] = {"f": "6161"}
+    inner["take.mov"] = {"f": "6262"}
+    other_case = base.swapcase() if base.swapcase() != base else base + "_"
     tree = {base: {"d": inner},
+            other_case: {"d": {"c0.mov": {"f": "7a7a"}, "Sub": {"d": {"x": {"f": "01"}}}, "sub": {"d": {"x": {"f": "02"}}}}},
             base + rng.choice(["_proxy", " 2", "x", "-b"]): {"d": {"sub dir": {"d": {base + "C002.mp4": {"f": "010203"}}}, "p.bin": {"f": "99"}}},
             base + rng.choice([".txt", ".", "~"]): {"f": "5a5a"},
             base[:-1] if len(base) > 1 else "q": {"f": "31"}}
